@@ -68,6 +68,72 @@ def expand_slices(text, record):
     return SLICE_RE.sub(repl, text)
 
 
+def module_path(rel):
+    """src/tyme/culture/star/nine.rs -> tyme::culture::star::nine ; src/tyme/mod.rs -> tyme"""
+    parts = rel[len('src/'):-len('.rs')].split('/')
+    if parts[-1] == 'mod':
+        parts = parts[:-1]
+    return '::'.join(parts)
+
+
+def find_cycles(src):
+    """Cyclic culture types of one source file: inherent impl X with `fn from_index(index: isize)` built on
+    LoopTyme::from_index(<TABLE>.to_vec()...). Returns [(Type, TABLE, size, has_from_name)]."""
+    out = []
+    sizes = {}
+    for it in src.items:
+        if it.kind == 'static' and it.name and it.name.endswith('_NAMES'):
+            m = re.search(r'\[\s*&str\s*;\s*(\d+)\s*\]', src.item_text(it))
+            if m:
+                sizes[it.name] = int(m.group(1))
+    for it in src.items:
+        if it.kind != 'impl' or ' for ' in it.header:
+            continue
+        fi = [c for c in it.children if c.kind == 'fn' and c.name == 'from_index']
+        if not fi:
+            continue
+        txt = src.item_text(fi[0])
+        m = re.search(r'LoopTyme::from_index\(\s*(\w+)\.to_vec\(\)', txt)
+        if not m or not re.search(r'fn\s+from_index\s*\(\s*index\s*:\s*isize\s*\)', txt):
+            continue
+        table = m.group(1)
+        if table not in sizes:
+            continue
+        ty = it.header.split()[-1]
+        has_name = any(c.kind == 'fn' and c.name == 'from_name' for c in it.children)
+        out.append((ty, table, sizes[table], has_name))
+    return out
+
+
+CYCLE_HARNESS = '''
+// generated for cyclic type {ty} (table {table}, size {n}) found in {rel}
+#[kani::proof]
+#[kani::stub(alloc::fmt::format, stub_format)]
+fn c11_cycle_{lty}() {{
+  let i: isize = kani::any();
+  let n: isize = kani::any();
+  kani::assume(n > -(1isize << 62) && n < (1isize << 62));
+  let x = {ty}::from_index(i);
+  let xi = spec::emod(i as i64, {n});
+  assert!(x.get_index() as i64 == xi, "from_index(i).index == i mod size, every isize");
+  assert!(x.get_size() == {n}, "size");
+  let y = x.next(n);
+  assert!(y.get_index() as i64 == spec::emod(xi + n as i64, {n}), "next(n).index == (index + n) mod size");
+  kani::cover!(i == -1 && n == -{n}, "cycle reachable");
+}}
+'''
+
+GENERIC_MODULE = '''// generic Kani harness module (generated): woven as `mod verif_k` at the end of {rel}
+#![allow(dead_code, unused_imports)]
+use super::*;
+use crate::tyme::{{Culture, Tyme}};
+#[path = "@SPEC@"]
+pub mod spec;
+pub fn stub_format(_a: core::fmt::Arguments<'_>) -> String {{ String::new() }}
+//@CYCLES
+'''
+
+
 def weave(scratch, plan_path=None):
     """Apply kani/weave.json to the scratch copy. Returns a list of woven anchors."""
     plan_path = plan_path or os.path.join(VERIF, 'kani', 'weave.json')
@@ -76,6 +142,19 @@ def weave(scratch, plan_path=None):
     for a in plan.get('attrs', []):
         by_file.setdefault(a['file'], []).append(a)
     woven = []
+    # every source file that defines cyclic culture types gets a harness module (generated if none is written)
+    cycles = {}
+    have = {m['file'] for m in plan.get('modules', [])}
+    for root, _, fs in os.walk(os.path.join(scratch, 'src')):
+        for f in fs:
+            if f.endswith('.rs'):
+                rel = os.path.relpath(os.path.join(root, f), scratch)
+                cy = find_cycles(rsscan.load(os.path.join(root, f)))
+                if cy:
+                    cycles[rel] = cy
+                    if rel not in have:
+                        plan.setdefault('modules', []).append({'file': rel, 'harness': None})
+                        have.add(rel)
     files = set(by_file) | {m['file'] for m in plan.get('modules', [])}
     for rel in sorted(files):
         path = os.path.join(scratch, rel)
@@ -102,11 +181,11 @@ def weave(scratch, plan_path=None):
             new = new[:off] + text + new[off:]
         for m in plan.get('modules', []):
             if m['file'] == rel:
-                hp = os.path.join(scratch, 'verif_k', os.path.basename(m['harness']))
+                hp = os.path.join(scratch, 'verif_k', 'k_' + module_path(rel).replace('::', '_') + '.rs')
                 if not new.endswith('\n'):
                     new += '\n'
                 new += '\n#[cfg(kani)]\n#[path = "%s"]\nmod verif_k;\n' % hp
-                woven.append('%s mod verif_k -> %s' % (rel, m['harness']))
+                woven.append('%s mod verif_k -> %s' % (rel, m['harness'] or 'generated'))
         # pure-addition check
         a_lines = orig.split('\n')
         b_lines = new.split('\n')
@@ -119,10 +198,24 @@ def weave(scratch, plan_path=None):
     vk = os.path.join(scratch, 'verif_k')
     os.makedirs(vk, exist_ok=True)
     slices = {}
+    modmap = {}
     for m in plan.get('modules', []):
-        text = open(os.path.join(VERIF, m['harness']), encoding='utf-8').read()
+        rel = m['file']
+        if m['harness']:
+            text = open(os.path.join(VERIF, m['harness']), encoding='utf-8').read()
+        else:
+            text = GENERIC_MODULE.format(rel=rel)
+        gen = ''.join(CYCLE_HARNESS.format(ty=ty, lty=ty.lower(), table=tb, n=n, rel=rel) for ty, tb, n, hn in cycles.get(rel, []))
+        if '//@CYCLES' in text:
+            text = text.replace('//@CYCLES', gen)
+        else:
+            text += gen
         text = expand_slices(text, slices).replace('@SPEC@', os.path.join(vk, 'spec_plain.rs'))
-        open(os.path.join(vk, os.path.basename(m['harness'])), 'w', encoding='utf-8').write(text)
+        fn = 'k_' + module_path(rel).replace('::', '_') + '.rs'
+        modmap[fn] = module_path(rel)
+        open(os.path.join(vk, fn), 'w', encoding='utf-8').write(text)
+    json.dump(modmap, open(os.path.join(vk, 'modules.json'), 'w'))
+    globals()['last_cycles'] = cycles
     import specgen
     spec_files = sorted(os.path.join(VERIF, 'spec', f) for f in os.listdir(os.path.join(VERIF, 'spec')) if f.endswith('.rs'))
     parts = ['#![allow(dead_code, unused_parens, unused_variables)]\n']
